@@ -66,7 +66,7 @@ def _schedules(tier):
         dur2 = [(2, 4), (3, 3)]
     else:
         dur1 = [1, 2, 4, 6]
-        dur2 = [(1, 1), (2, 4), (3, 3), (6, 4)]
+        dur2 = [(1, 1), (2, 4), (3, 3)]
     for t in TYPES:
         for d in dur1:
             ths = [1] + ([2] if d % 2 == 0 and d >= 2 else [])
@@ -82,8 +82,7 @@ def _schedules(tier):
     if tier != "quick":
         for seq in itertools.product(TYPES, repeat=3):
             if _valid(seq):
-                out.append([[seq[0], 2, 1], [seq[1], 4, 1], [seq[2], 2, 1]])
-                out.append([[seq[0], 3, 1], [seq[1], 1, 1], [seq[2], 2, 2]])
+                out.append([[seq[0], 2, 1], [seq[1], 4, 2 if seq[1] == "POSTERIOR" else 1], [seq[2], 2, 1]])
     # simplest first
     out.sort(key=lambda s: (len(s), sum(e[1] for e in s), sum(e[2] for e in s)))
     return out
@@ -133,14 +132,14 @@ def bounds(tier):
 def tracer_cases(tier, seed):
     """
     Part 1 (schedule lattice): for every (schedule, chunk) the product chains x jitter x
-    init is walked; quick takes every 3rd (single-epoch schedules) / 6th (two-epoch
-    schedules) point and thorough every 2nd point of that product with an offset that
+    init is walked; quick takes every 3rd (single-epoch schedules) / 9th (two-epoch
+    schedules) point and thorough every 5th point of the (larger) product with an offset that
     rotates from one (schedule, chunk) to the next, so every value of every factor meets
     every schedule. (kernels, generators), the seed, the perturbed chain and whether
     the int-seed run is repeated cycle through their lists.
     Part 2 (configuration lattice): the complete product (kernels, generators) x chains x
-    jitter x init x chunk on reference schedules, every chain perturbed, int-seed run
-    repeated.
+    jitter x init (x chunk in the thorough tier) on reference schedules, every chain
+    perturbed, int-seed run repeated.
     """
     scheds = _schedules(tier)
     chains_l = [1, 2, 3] if tier == "quick" else [1, 2, 3, 4]
@@ -151,7 +150,7 @@ def tracer_cases(tier, seed):
     pair = 0
     for sch in scheds:
         for chunk in _divisors(_gcd(sch)):
-            stride = 2 if tier != "quick" else (3 if len(sch) == 1 else 6)
+            stride = 5 if tier != "quick" else (3 if len(sch) == 1 else 9)
             pts = list(itertools.product(chains_l, ["none", "det", "key"], ["replicated", "multi"]))
             for i, (chains, jitter, init) in enumerate(pts):
                 if (i + pair) % stride != 0:
@@ -167,7 +166,7 @@ def tracer_cases(tier, seed):
         refs = refs[:1]
     for sch in refs:
         for (nk, nq), chains, jitter, init in itertools.product(kq_l, chains_l, ["none", "det", "key"], ["replicated", "multi"]):
-            for chunk in _divisors(_gcd(sch)):
+            for chunk in (_divisors(_gcd(sch)) if tier != "quick" else [_gcd(sch)]):
                 s = seeds[n % len(seeds)]
                 n += 1
                 pert = list(range(chains)) if (init == "multi" and chains > 1) else []
@@ -379,10 +378,45 @@ def _jitter_fns(kind, names, float_names=()):
 # ---------------------------------------------------------------------------------
 
 
-class InitRaised(Exception):
-    def __init__(self, exc):
-        super().__init__(repr(exc))
+class LieselRaised(Exception):
+    """liesel raised on a valid configuration (the raising frame is liesel's, not the harness')."""
+
+    def __init__(self, exc, stage, where):
+        super().__init__(f"{stage}: {exc!r} at {where}")
         self.exc = exc
+        self.stage = stage
+        self.where = where
+
+
+def _blame(exc):
+    """
+    'liesel:<file>:<function>' if the innermost traceback frame that belongs to either
+    liesel or the harness is liesel's (liesel raised, or called jax with bad arguments);
+    None if it is a harness frame (kernels / generators / jitter functions defined here),
+    in which case the exception is a harness error and propagates.
+    """
+    import traceback
+
+    repo = os.path.realpath(os.environ.get("VERIF_REPO", "/repo"))
+    last = None
+    for fr in traceback.extract_tb(exc.__traceback__):
+        f = os.path.realpath(fr.filename)
+        if f.startswith(os.path.join(repo, "liesel") + os.sep):
+            last = f"liesel:{os.path.relpath(f, repo)}:{fr.name}"
+        elif f.startswith(os.path.realpath(core.VERIF) + os.sep):
+            last = None if fr.name in ("run_engine", "_run_engine") else "harness"
+    return last if last and last != "harness" else None
+
+
+def run_engine(case, seed_form="int", perturb=None):
+    stage = ["setup"]
+    try:
+        return _run_engine(case, seed_form, perturb, stage)
+    except Exception as e:
+        where = _blame(e)
+        if where is None:
+            raise
+        raise LieselRaised(e, stage[0], where) from e
 
 
 def _epoch_configs(schedule):
@@ -406,7 +440,7 @@ def _flatten(tree):
     return out
 
 
-def run_engine(case, seed_form="int", perturb=None):
+def _run_engine(case, seed_form, perturb, stage):
     """
     Builds and runs one engine for ``case``. Returns dict(leaves, keys, carries, init).
     ``perturb`` = chain index whose initial values are changed (multi init only).
@@ -447,15 +481,14 @@ def run_engine(case, seed_form="int", perturb=None):
     builder.store_kernel_states = tracer
     builder.set_epochs(_epoch_configs(schedule))
     builder.set_model(model)
-    try:
-        if case["init"] == "replicated":
-            state = {k: jnp.asarray(v[0]) for k, v in init_np.items()}
-            builder.set_initial_values(state)
-        else:
-            state = {k: jnp.asarray(v) for k, v in init_np.items()}
-            builder.set_initial_values(state, multiple_chains=True)
-    except Exception as e:  # the documented call with valid arguments must not raise
-        raise InitRaised(e)
+    stage[0] = "set_initial_values"
+    if case["init"] == "replicated":
+        state = {k: jnp.asarray(v[0]) for k, v in init_np.items()}
+        builder.set_initial_values(state)
+    else:
+        state = {k: jnp.asarray(v) for k, v in init_np.items()}
+        builder.set_initial_values(state, multiple_chains=True)
+    stage[0] = "configure"
     for k in kernels:
         builder.add_kernel(k)
     for g in gens:
@@ -463,8 +496,10 @@ def run_engine(case, seed_form="int", perturb=None):
     if jfn is not None:
         builder.set_jitter_fns(jfn)
     builder.positions_included = included
+    stage[0] = "build"
     engine = builder.build()
     if case["chunk"] != engine._jitted_sample_duration:
+        stage[0] = "Engine"
         # explicit chunk size: the Engine constructor with what the builder passes
         engine = Engine(
             seeds=engine._seeds,
@@ -489,11 +524,13 @@ def run_engine(case, seed_form="int", perturb=None):
         return [np.asarray(ks["n"]).copy() for ks in engine._kernel_states]
 
     counts.append(cnt())
+    stage[0] = "sample_next_epoch"
     while not engine.is_sampling_done():
         engine.sample_next_epoch()
         carries.append(np.asarray(engine._prng_key).copy())
         counts.append(cnt())
 
+    stage[0] = "get_results"
     results = engine.get_results()
     tree = {
         "positions": results.positions.combine_all().unwrap(),
@@ -506,6 +543,7 @@ def run_engine(case, seed_form="int", perturb=None):
     }
     post = results.positions.combine_filtered(lambda c: c.type.name == "POSTERIOR")
     tree["posterior"] = post.unwrap_or(None)
+    stage[0] = "harness-postprocessing"
     leaves = _flatten(tree)
     tinfo_keys = {kid: np.asarray(ti.key) for kid, ti in tree["tinfos"].items()} if tracer else {}
     gen_keys = {gid: np.asarray(q.key) for gid, q in (tree["gq"] or {}).items()} if tracer else {}
@@ -590,7 +628,22 @@ def collect_keys(case, obs):
 
 
 def check_case(res, case):
-    """Runs all engine runs of one configuration and evaluates the oracles."""
+    """Runs all engine runs of one configuration; liesel raising on it is a violation."""
+    try:
+        _check_case(res, case)
+    except LieselRaised as e:
+        res.executions += 1
+        res.outcome("raised", e.stage, type(e.exc).__name__)
+        multi = case["init"] == "multi"
+        if e.stage == "set_initial_values":
+            check, what = "initial-values", f"EngineBuilder.set_initial_values(state, multiple_chains={multi}) raised: the supplied initial values cannot be honoured"
+        else:
+            check, what = "engine-raises", f"liesel raised during {e.stage} on a valid configuration"
+        c = dict(case)
+        res.violation(check, f"{e.stage}-{case['init']}-raises-{type(e.exc).__name__}-in-{e.where.split(':')[-1]}", c, f"{what}: {e.exc!r} ({e.where}) [chains={case['chains']} jitter={case['jitter']} schedule={case['schedule']}]")
+
+
+def _check_case(res, case):
     import numpy as np
 
     chains = case["chains"]
@@ -605,18 +658,7 @@ def check_case(res, case):
         res.violation(check, sig, c, f"{msg} [case {cls} schedule {shape} seed {case['seed']}]")
 
     # --- run A
-    try:
-        A = run_engine(case, "int")
-    except InitRaised as e:
-        res.executions += 1
-        res.states += 1
-        res.outcome("init", case["init"], "raised", type(e.exc).__name__)
-        viol(
-            "initial-values",
-            f"set_initial_values-{case['init']}-raises-{type(e.exc).__name__}",
-            f"EngineBuilder.set_initial_values(state, multiple_chains={case['init'] == 'multi'}) raised {e.exc!r}: the supplied initial values cannot be honoured",
-        )
-        return
+    A = run_engine(case, "int")
     runs = 1
     la = A["leaves"]
     res.states += 1
@@ -754,8 +796,12 @@ def run_unit(unit):
     res = core.UnitResult(unit)
     from mc.seams import quiet
 
+    import time
+
+    t0 = time.process_time()
     lib()  # imports liesel (which configures its loggers) before they are silenced
     with quiet():
         for case in unit["cases"]:
             check_case(res, case)
+    res.extra["cpu_s"] = round(time.process_time() - t0, 1)
     return res
